@@ -504,11 +504,10 @@ def _build_sm(arch, v, data):
     D = Deco(arch["deco"], v)
     d, q = arch["d"], arch["q"]
     bs = torch.Size(arch.get("batch", []))
-    k = K.SpectralMixtureKernel(num_mixtures=q, ard_num_dims=d, batch_shape=bs, **D.kw("mixture_scales"), **D.kw("mixture_means"), **D.kw("mixture_weights"))
+    k = K.SpectralMixtureKernel(num_mixtures=q, ard_num_dims=d, batch_shape=bs, **D.kw("mixture_scales", prior=False), **D.kw("mixture_means", prior=False),
+                                **D.kw("mixture_weights", prior=False))  # "Priors not implemented for SpectralMixtureKernel"
     if arch["init"] == "from_data":
         k.initialize_from_data(data["train_inputs"][0], data["y"].reshape(-1, data["y"].shape[-1])[0])
-    elif arch["init"] == "from_data_empspect" and not bs:
-        k.initialize_from_data_empspect(data["train_inputs"][0], data["y"])
     return finish_exact(arch, v, D, data, k)
 
 
@@ -530,7 +529,7 @@ def _build_rff(lazy):
 
 
 register("exact.spectral_mixture", "exact", "exact.kernels",
-         _simple_arch(lambda p: {"q": p.int(1, 3), "init": p.choice(["values", "from_data", "from_data_empspect"]), "lik": "Gaussian"}), _build_sm)
+         _simple_arch(lambda p: {"q": p.int(1, 3), "init": p.choice(["values", "from_data"]), "lik": "Gaussian"}), _build_sm)
 register("exact.spectral_delta", "exact", "exact.kernels", _simple_arch(lambda p: {"deltas": p.int(3, 8)}), _build_sd, random_buffer=True)
 register("exact.rff_eager", "exact", "exact.kernels", _simple_arch(lambda p: {"samples": p.int(2, 9)}), _build_rff(False), random_buffer=True)
 register("exact.rff_lazy", "exact", "exact.kernels", _simple_arch(lambda p: {"samples": p.int(2, 9)}), _build_rff(True), random_buffer=True,
@@ -598,7 +597,9 @@ def _build_dist(arch, v, data):
 register("exact.arc", "exact", "exact.kernels", _simple_arch(), _build_arc, data=_unit_ball_data)
 register("exact.cylindrical", "exact", "exact.kernels", _simple_arch(lambda p: {"weights": p.int(1, 4)}, d_choices=(2, 3)), _build_cylindrical,
          data=_unit_ball_data)
-register("exact.hamming", "exact", "exact.kernels", _simple_arch(lambda p: {"vocab": p.int(2, 4), "seq": p.int(2, 4)}), _build_hamming, data=_hamming_data)
+# (no batch shape: batched HammingIMQKernel is finding F15 of another property)
+register("exact.hamming", "exact", "exact.kernels", _simple_arch(lambda p: {"vocab": p.int(2, 4), "seq": p.int(2, 4)}, batch=False), _build_hamming,
+         data=_hamming_data)
 register("exact.gaussian_symmetrized_kl", "exact", "exact.kernels", _simple_arch(d_choices=(1, 2)), _build_dist, data=_dist_data)
 
 
@@ -675,6 +676,83 @@ register("exact.product", "exact", "exact.kernels", _composite_arch, _build_comp
 register("exact.additive_structure", "exact", "exact.kernels", _structure_arch, _build_structure("additive_structure"))
 register("exact.product_structure", "exact", "exact.kernels", _structure_arch, _build_structure("product_structure"))
 register("exact.newton_girard", "exact", "exact.kernels", _structure_arch, _build_structure("newton_girard"))
+
+
+# ---- structure-exploiting kernels ----------------------------------------------------------------------
+def _grid_data(arch, v):
+    """training inputs = the full grid of the *original's* seed-independent grid (data), so that the Toeplitz/Kronecker path is taken"""
+    d, g = arch["d"], arch["g"]
+    grid = [torch.linspace(-1.0 - 0.1 * i, 1.0 + 0.2 * i, g, dtype=F64) for i in range(d)]
+    from gpytorch.utils.grid import create_data_from_grid
+
+    X = create_data_from_grid(grid)
+    n, ns = X.shape[0], arch["ns"]
+    return {"train_inputs": (X,), "y": v.t((n,), -1.5, 1.5), "test_inputs": (v.t((ns, d), -1.0, 1.0),), "test_noise": v.t((ns,), 0.05, 0.5),
+            "fixed_noise": v.t((n,), 0.05, 0.5), "grid": grid}
+
+
+def _build_grid(arch, v, data):
+    D = Deco(arch["deco"], v)
+    base = K.RBFKernel(**D.kw("lengthscale")) if arch["leaf"] == "RBF" else K.MaternKernel(nu=1.5, **D.kw("lengthscale"))
+    if arch["own_grid"]:
+        # the grid is a buffer: a seed-dependent grid that the state_dict must replace by the original's
+        grid = [torch.linspace(-1.0 - v.f(0.0, 0.5), 1.0 + v.f(0.0, 0.5), arch["g"], dtype=F64) for _ in range(arch["d"])]
+    else:
+        grid = [g.clone() for g in data["grid"]]
+    k = K.GridKernel(base, grid=grid)
+    return finish_exact(arch, v, D, data, maybe_scale(arch, D, k))
+
+
+def _grid_arch(p):
+    a = base_arch(p, d_choices=(1, 2))
+    a.update(g=p.int(3, 4), leaf=p.choice(["RBF", "Matern"]), own_grid=p.bool(), scale=p.bool())
+    return a
+
+
+def _build_kiss(dynamic):
+    def build(arch, v, data):
+        D = Deco(arch["deco"], v)
+        d = arch["d"]
+        base = K.RBFKernel(ard_num_dims=d if arch["ard"] else None, **D.kw("lengthscale")) if arch["leaf"] == "RBF" else \
+            K.MaternKernel(nu=2.5, **D.kw("lengthscale"))
+        if dynamic:
+            k = K.GridInterpolationKernel(base, grid_size=arch["g"], num_dims=d)
+        else:
+            # the grid buffers are derived from the bounds: seed-dependent bounds, all of them containing the data
+            k = K.GridInterpolationKernel(base, grid_size=arch["g"], grid_bounds=[(-3.0 - v.f(0.0, 1.0), 3.0 + v.f(0.0, 1.0)) for _ in range(d)])
+        return finish_exact(arch, v, D, data, maybe_scale(arch, D, k))
+
+    return build
+
+
+def _kiss_arch(p):
+    a = base_arch(p, d_choices=(1, 2))
+    a.update(g=p.int(6, 10), leaf=p.choice(["RBF", "Matern"]), ard=p.bool(), scale=p.bool())
+    return a
+
+
+def _build_sgpr(arch, v, data):
+    D = Deco(arch["deco"], v)
+    d = arch["d"]
+    lik = build_likelihood(dict(arch, lik="Gaussian"), v, D, data)
+    kw, dk = stationary_kwargs(dict(arch, ad=False), v, D)
+    base = K.RBFKernel(**kw) if arch["leaf"] == "RBF" else K.MaternKernel(nu=2.5, **kw)
+    base = maybe_scale(arch, D, base)
+    k = K.InducingPointKernel(base, inducing_points=v.distinct_points(arch["m"], d), likelihood=lik)
+    mark_set(k.inducing_points)
+    return finish_exact(arch, v, D, data, k, lik=lik)
+
+
+def _sgpr_arch(p):
+    a = base_arch(p)
+    a.update(m=p.int(2, 4), leaf=p.choice(["RBF", "Matern"]), ard=p.bool(), scale=p.bool(), lik="Gaussian")
+    return a
+
+
+register("exact.grid", "exact", "exact.structured", _grid_arch, _build_grid, data=_grid_data)
+register("exact.kiss_fixed_grid", "exact", "exact.structured", _kiss_arch, _build_kiss(False))
+register("exact.kiss_dynamic_grid", "exact", "exact.structured", _kiss_arch, _build_kiss(True))
+register("exact.sgpr", "exact", "exact.structured", _sgpr_arch, _build_sgpr)
 
 
 # ---------------------------------------------------------------------------------------------------
